@@ -455,3 +455,69 @@ def ping_behind_large_publish_family(report, prop="C14", label="ping-behind-publ
     report.obligation("corr:" + label, "correspondence", ok, f"{len(scripts)} scripted scenarios (versions x buffer sizes x write pace), every response compared")
     report.obligation("mon:" + label, "monitor", mon, "no keep-alive failure before a PINGREQ has been on the wire for min(ping timeout, K/2)")
     return ok and mon
+
+
+def delayed_ping_spin_family(report, prop="C08", label="delayed-ping"):
+    """a PINGREQ falls due while a publish that needs many buffers is being written, one buffer per second: it waits, is written
+    late, and its PINGRESP is awaited.  At every moment the driver asks for the next service time; whenever the engine says
+    'now' (or earlier) a service call must do something: produce bytes, complete something or change state.  Keep alive
+    10 s / 4 s, both versions."""
+    from gv import harness_batch, resp_fields
+    scripts = []
+    for v in ("5", "311"):
+        connack = "x20020000" if v == "311" else "x2003000000"
+        for ka, nbuf in ((10, 8), (4, 6), (10, 3)):
+            size = 4096 * nbuf - 100
+            t0 = ka * 1000 - 1000
+            sc = [f"eng.new v={v} policy=all drain=none pingto=30000 resolver=none rmax=2 | ka={ka} cid=x636c6b",
+                  "eng.open t=0 deadline=1000", "eng.svc t=0 cap=4096 prefill=0", "eng.wc t=0", f"eng.data t=0 b={connack}",
+                  f"eng.pub t={t0} | publish pid=0 topic=x742f30 qos=0 retain=0 payload=x{'00' * size}"]
+            t = t0
+            for _ in range(nbuf):
+                # one buffer per second: the write completes 999 ms after it was handed out
+                sc += [f"eng.svc t={t} cap=4096 prefill=0", f"eng.wc t={t + 999}"]
+                t += 1000
+            for _ in range(ka + 2):
+                # everything has been written (the PINGREQ rode in the last buffer); now the driver only asks and services
+                sc += ["eng.snap", f"eng.nst t={t}", f"eng.svc t={t} cap=4096 prefill=0", "eng.snap", f"eng.nst t={t}"]
+                t += 500
+            scripts.append(sc)
+    reqs, starts = [], []
+    for sc in scripts:
+        starts.append(len(reqs))
+        reqs.append("session.reset")
+        reqs += sc
+    impl = harness_batch(reqs)
+    model = driver_batch(reqs)
+    ok, mon, bad = True, True, 0
+    for k, st in enumerate(starts):
+        end = starts[k + 1] if k + 1 < len(starts) else len(reqs)
+        report.case("|".join(x[:60] for x in reqs[st + 1:end]))
+        for i in range(st, end):
+            if canon(impl[i]) != canon(model[i]):
+                if bad < 4:
+                    report.add_finding(Finding(prop, "corr:" + label, {"clause": "model-vs-impl", "verb": reqs[i].split(" ")[0]},
+                                               "delayed ping scenario: implementation and model disagree", [x[:160] for x in reqs[st + 1:i + 1]] + ["# impl:  " + impl[i][:300], "# model: " + model[i][:300]], has_input=False))
+                ok = False
+                bad += 1
+                break
+        # pattern: snap, nst(next <= t), svc at t with no output and no completion, snap identical, nst(next <= t) again
+        for i in range(st, end - 4):
+            if reqs[i] == "eng.snap" and reqs[i + 1].startswith("eng.nst") and reqs[i + 2].startswith("eng.svc") and reqs[i + 3] == "eng.snap" and reqs[i + 4].startswith("eng.nst"):
+                t = int(reqs[i + 1].split("t=")[1])
+                n1, _ = resp_fields(impl[i + 1])
+                sv, _ = resp_fields(impl[i + 2])
+                n2, _ = resp_fields(impl[i + 4])
+                due = lambda n: n.get("next") not in (None, "never") and int(n["next"]) <= t
+                if due(n1) and sv.get("res") == "ok" and sv.get("bytes", "x") == "x" and not sv.get("comps") and impl[i] == impl[i + 3] and due(n2):
+                    mon = False
+                    if bad < 8:
+                        report.add_finding(Finding(prop, "mon:" + label, {"clause": "idle-spin"},
+                                                   f"at {t} ms the engine reports a service time of {n1['next']} ms, the service call produces nothing, completes nothing and changes no state, "
+                                                   f"and the reported time stays {n2['next']} ms: a driver spins until the PINGRESP arrives", [x[:160] for x in reqs[st + 1:i + 5]]))
+                    bad += 1
+                    break
+    report.count(label + ".scenarios", len(scripts))
+    report.obligation("corr:" + label, "correspondence", ok, f"{len(scripts)} scripted scenarios, every response compared")
+    report.obligation("mon:" + label, "monitor", mon, "whenever the reported service time is now or earlier, a service call makes progress")
+    return ok and mon
